@@ -140,7 +140,7 @@ theorem close_core2 {g : E2E.Cfg} (ok : Cfg2 g) {c : Conn} {r r2 : AReq} {cs : C
             (.writing (run .header r2.sp.raw g.mc).out (run .header r2.sp.raw g.mc).st.isFinal)) t') r2.sp.raw :=
         ⟨by show r2.sp.raw ++ t'.input ++ serAll g.recs = g.W'
             rw [hrawin, E2E.Cfg.W'],
-          hstop, hb.step hts, hremle, Or.inr ⟨_, rfl, by show t'.wlog ++ _ = _; rw [hlog']⟩⟩
+          hstop, hb.step hts, hremle, Or.inr ⟨_, rfl, by show t'.wlog ++ _ = _; rw [hlog'], [], rfl⟩⟩
       have hidle := idle_poll2 ok hO hst hrawin (hts.em.trans hem) hk (hev.step hts)
         ((fun s hs => hts.mem_events (hre s hs))) hsc hm
       have := Res.of_steps (Steps.step hstep' (Steps.one hstep2')) (mkC_link c _ hts) hidle
@@ -375,7 +375,7 @@ theorem start_poll2 {g : E2E.Cfg} (ok : Cfg2 g) {c : Conn} {raw : Bytes}
       (.writing (run .header raw g.mc).out (run .header raw g.mc).st.isFinal)) c.env.tr) raw :=
     ⟨by show raw ++ c.env.tr.input ++ [] = g.W
         rw [List.append_nil]; exact hwire,
-      hstop, hb, hremle, Or.inr ⟨_, rfl, by show c.env.tr.wlog ++ _ = _; rw [hlog]⟩⟩
+      hstop, hb, hremle, Or.inr ⟨_, rfl, by show c.env.tr.wlog ++ _ = _; rw [hlog], [], rfl⟩⟩
   have hres := parse_poll2 ok hst hem hsc hm hev
   have := Res.of_steps (Steps.one hstep') (mkC_link c _ (.refl _)) hres
   exact this.mono (by show 1 + (4 * c.env.tr.input.length + 16) ≤ _; omega)
